@@ -27,3 +27,274 @@ pub fn set_count<T: ?Sized>(a: &Arc<T>, c: usize) {
 pub fn raw_count<T: ?Sized>(a: &Arc<T>) -> usize {
     Arc::__verif_count_word(a).load(Ordering::Relaxed)
 }
+
+// ---------------------------------------------------------------- layout log
+extern "C" {
+    fn malloc(n: usize) -> *mut core::ffi::c_void;
+    fn free(p: *mut core::ffi::c_void);
+}
+
+pub const NLOG: usize = 8;
+#[derive(Clone, Copy)]
+pub struct Block {
+    pub addr: usize,
+    pub size: usize,
+    pub align: usize,
+    pub live: bool,
+}
+pub static mut LOG: [Block; NLOG] = [Block { addr: 0, size: 0, align: 0, live: false }; NLOG];
+pub static mut NALLOC: usize = 0;
+pub static mut NDEALLOC: usize = 0;
+/// When set, the next allocation request fails (returns null); used by C07.
+pub static mut FAIL_ALLOC_AT: usize = usize::MAX;
+pub static mut ALLOC_ERROR_HANDLER_CALLED: bool = false;
+
+/// Replaces `std::alloc::alloc`: logs (address, size, align) of every block requested from the
+/// global allocator. Memory comes from CBMC's `malloc` model (fresh object, nondeterministic
+/// contents).
+pub unsafe fn alloc_stub(layout: Layout) -> *mut u8 {
+    let i = NALLOC;
+    assert!(i < NLOG, "ghost: layout log full");
+    assert!(layout.size() > 0, "ghost: zero-sized request to the global allocator");
+    NALLOC += 1;
+    if i == FAIL_ALLOC_AT {
+        LOG[i] = Block { addr: 0, size: layout.size(), align: layout.align(), live: false };
+        return core::ptr::null_mut();
+    }
+    let p = malloc(layout.size()) as *mut u8;
+    #[cfg(kani)]
+    kani::assume(!p.is_null());
+    LOG[i] = Block { addr: p as usize, size: layout.size(), align: layout.align(), live: true };
+    p
+}
+
+/// Replaces `alloc::alloc::dealloc_nonnull` (what `Box`/`Vec` drop reach) and checks the layout
+/// handed back against the one logged at allocation time.
+pub unsafe fn dealloc_stub(ptr: NonNull<u8>, layout: Layout) {
+    let a = ptr.as_ptr() as usize;
+    let mut found = 0usize;
+    macro_rules! slot {
+        ($i:expr) => {
+            if $i < NALLOC && LOG[$i].live && LOG[$i].addr == a {
+                found += 1;
+                assert!(LOG[$i].size == layout.size(), "ghost: block freed with a size different from the one requested");
+                assert!(LOG[$i].align == layout.align(), "ghost: block freed with an alignment different from the one requested");
+                LOG[$i].live = false;
+            }
+        };
+    }
+    slot!(0);
+    slot!(1);
+    slot!(2);
+    slot!(3);
+    slot!(4);
+    slot!(5);
+    slot!(6);
+    slot!(7);
+    assert!(found == 1, "ghost: freed a block that is not live in the layout log (double free / foreign pointer)");
+    NDEALLOC += 1;
+    free(ptr.as_ptr() as *mut core::ffi::c_void);
+}
+
+pub fn hae_stub(_layout: Layout) -> ! {
+    unsafe {
+        ALLOC_ERROR_HANDLER_CALLED = true;
+    }
+    #[cfg(kani)]
+    kani::assume(false);
+    loop {}
+}
+/// same, with a reachability witness (used where the failure path must be shown to be taken)
+pub fn hae_stub_cov(_layout: Layout) -> ! {
+    unsafe {
+        ALLOC_ERROR_HANDLER_CALLED = true;
+        assert!(FAIL_ALLOC_AT < NALLOC, "handle_alloc_error reached although no allocation failed");
+    }
+    #[cfg(kani)]
+    {
+        kani::cover!(true, "handle_alloc_error reached");
+        kani::assume(false);
+    }
+    loop {}
+}
+
+pub fn n_live() -> usize {
+    unsafe {
+        let mut n = 0;
+        macro_rules! slot {
+            ($i:expr) => {
+                if $i < NALLOC && LOG[$i].live {
+                    n += 1;
+                }
+            };
+        }
+        slot!(0);
+        slot!(1);
+        slot!(2);
+        slot!(3);
+        slot!(4);
+        slot!(5);
+        slot!(6);
+        slot!(7);
+    slot!(6);
+    slot!(7);
+        n
+    }
+}
+/// The live log entry for the block starting at `addr`, if any.
+pub fn block_of(addr: usize) -> Option<Block> {
+    unsafe {
+        let mut r = None;
+        macro_rules! slot {
+            ($i:expr) => {
+                if $i < NALLOC && LOG[$i].live && LOG[$i].addr == addr {
+                    r = Some(LOG[$i]);
+                }
+            };
+        }
+        slot!(0);
+        slot!(1);
+        slot!(2);
+        slot!(3);
+        slot!(4);
+        slot!(5);
+        slot!(6);
+        slot!(7);
+    slot!(6);
+    slot!(7);
+        r
+    }
+}
+/// Log entry number `i` (in request order), live or not.
+pub fn block_nr(i: usize) -> Block {
+    unsafe {
+        assert!(i < NALLOC && i < NLOG);
+        LOG[i]
+    }
+}
+pub fn nalloc() -> usize {
+    unsafe { NALLOC }
+}
+pub fn ndealloc() -> usize {
+    unsafe { NDEALLOC }
+}
+
+// ---------------------------------------------------------------- drop / clone ledger
+pub const NIDS: usize = 16;
+pub static mut DROPS: [u8; NIDS] = [0; NIDS];
+pub static mut CLONES: u8 = 0;
+
+/// Drop-tracked value. `id` indexes the ledger; a drop of memory that was never written sees a
+/// nondeterministic id and trips the range assertion (or a ledger mismatch) for some value.
+#[derive(Debug)]
+#[repr(C)]
+pub struct Dt {
+    pub id: u8,
+    pub v: u8,
+}
+impl Dt {
+    pub fn new(id: u8, v: u8) -> Dt {
+        Dt { id, v }
+    }
+}
+impl Drop for Dt {
+    fn drop(&mut self) {
+        assert!((self.id as usize) < NIDS, "ghost: destructor ran on a slot that was never written");
+        unsafe {
+            assert!(DROPS[self.id as usize] < 200);
+            DROPS[self.id as usize] += 1;
+        }
+    }
+}
+/// A clone gets id+8 so that clone and original are told apart in the ledger.
+impl Clone for Dt {
+    fn clone(&self) -> Dt {
+        unsafe {
+            CLONES += 1;
+        }
+        Dt { id: self.id.wrapping_add(8), v: self.v }
+    }
+}
+impl PartialEq for Dt {
+    fn eq(&self, o: &Dt) -> bool {
+        self.v == o.v
+    }
+}
+pub fn drops(id: usize) -> u8 {
+    unsafe { DROPS[id] }
+}
+pub fn clones() -> u8 {
+    unsafe { CLONES }
+}
+/// Ledger shows: ids in `lo..hi` dropped exactly once, everything else never.
+pub fn ledger_is(lo: usize, hi: usize) -> bool {
+    let mut ok = true;
+    macro_rules! id {
+        ($($i:expr),*) => {$(
+            if drops($i) != (if $i >= lo && $i < hi { 1 } else { 0 }) {
+                ok = false;
+            }
+        )*};
+    }
+    id!(0, 1, 2, 3, 4, 5, 6, 7, 8, 9, 10, 11, 12, 13, 14, 15);
+    ok
+}
+pub fn ledger_zero() -> bool {
+    ledger_is(0, 0)
+}
+
+pub trait Tr {
+    fn v(&self) -> u8;
+}
+impl Tr for Dt {
+    fn v(&self) -> u8 {
+        self.v
+    }
+}
+impl Tr for u16 {
+    fn v(&self) -> u8 {
+        *self as u8
+    }
+}
+
+/// Over-aligned and odd-sized shapes (DESIGN 3.4).
+macro_rules! shape {
+    ($name:ident, $n:expr, $a:expr) => {
+        #[repr(C, align($a))]
+        #[derive(Clone, Copy, PartialEq, Debug)]
+        pub struct $name(pub [u8; $n]);
+        impl Tr for $name {
+            fn v(&self) -> u8 {
+                self.0[0]
+            }
+        }
+    };
+}
+shape!(S1a1, 1, 1);
+shape!(S3a1, 3, 1);
+shape!(S3a2, 3, 2);
+shape!(S5a4, 5, 4);
+shape!(S8a8, 8, 8);
+shape!(S12a4, 12, 4);
+shape!(S5a16, 5, 16);
+shape!(S24a8, 24, 8);
+shape!(S33a32, 33, 32);
+shape!(S1a64, 1, 64);
+shape!(S17a16, 17, 16);
+#[derive(Clone, Copy, PartialEq, Debug)]
+pub struct Zst;
+#[repr(align(16))]
+#[derive(Clone, Copy, PartialEq, Debug)]
+pub struct Zst16;
+
+/// Replaces `alloc::alloc::realloc_nonnull` (Vec/String growth): logged free + logged alloc + copy.
+pub unsafe fn realloc_stub(ptr: NonNull<u8>, layout: Layout, new_size: usize) -> *mut u8 {
+    let new_layout = Layout::from_size_align_unchecked(new_size, layout.align());
+    let p = alloc_stub(new_layout);
+    if !p.is_null() {
+        let n = if new_size < layout.size() { new_size } else { layout.size() };
+        core::ptr::copy_nonoverlapping(ptr.as_ptr(), p, n);
+        dealloc_stub(ptr, layout);
+    }
+    p
+}
